@@ -20,7 +20,14 @@ MS = {"engine": "mapspace", "needs": ["hz", "enum", "mapspace"], "level": "model
 GS13 = {"engine": "genspace", "needs": ["hz", "schema", "genspace"], "level": "model_checking", "plugins": ["plain", "mapctl"],
         "budget": {"quick": "300s", "thorough": "2400s"}}
 
+SM = {"engine": "small", "needs": ["hz", "enum", "small"], "level": "exploration", "gen": {"quick": ["mx"], "thorough": ["mx"]}}
+
+RS = {"engine": "rapidspace", "needs": ["hz", "enum", "rapidspace"], "level": "model_checking", "test": True,
+      "gen": {"quick": ["mx"], "thorough": ["mx"]}, "args": ["-test.run", "TestC18", "-test.timeout", "0"],
+      "budget": {"quick": "240s", "thorough": "1800s"}}
+
 PROPS = {
+    "C18": dict(RS),
     "C13": dict(GS13),
     "C05": dict(MS),
     "C09": dict(OS),
@@ -32,6 +39,7 @@ PROPS = {
     "C02": dict(VS),
     "C04": dict(VS),
     "C07": dict(VS),
-    "C15": {"engine": "small", "needs": ["hz", "small"], "level": "exploration"},
-    "C17": {"engine": "small", "needs": ["hz", "small"], "level": "exploration"},
+    "C15": dict(SM),
+    "C16": dict(SM),
+    "C17": dict(SM),
 }
